@@ -172,6 +172,25 @@ fn gen_read(rng: &mut Rng, st: &GenState) -> Op {
         10..=14 => {
             let lo = rand_bound(rng, &st.keys);
             let hi = rand_bound(rng, &st.keys);
+            if rng.chance(1, 5) {
+                // scan through an overlay memtable (read-your-own-writes): writes and deletes of
+                // a few keys, often exactly the keys the bounds name
+                let mut items: Vec<(Vec<u8>, Option<Vec<u8>>)> = Vec::new();
+                for b in [&lo, &hi] {
+                    if let Bnd::Incl(k) | Bnd::Excl(k) = b {
+                        if rng.chance(2, 3) && !items.iter().any(|(x, _)| x == k) {
+                            items.push((k.clone(), if rng.chance(3, 4) { Some(format!("o{}", rng.below(100)).into_bytes()) } else { None }));
+                        }
+                    }
+                }
+                for _ in 0..rng.range(0, 3) {
+                    let k = tweak_key_mostly_exact(rng, &st.keys);
+                    if !items.iter().any(|(x, _)| *x == k) {
+                        items.push((k, if rng.chance(3, 4) { Some(format!("o{}", rng.below(100)).into_bytes()) } else { None }));
+                    }
+                }
+                return Op::ORange(lo, hi, rand_pulls(rng, st.keys.len() as u64 + 3), s, items);
+            }
             Op::Range(lo, hi, rand_pulls(rng, st.keys.len() as u64 + 3), s)
         }
         15 | 16 => {
@@ -618,6 +637,21 @@ pub fn generate(profile: &str, seed: u64, n_ops: usize, blob: bool) -> History {
                         })
                         .collect();
                     ops.push(Op::Ingest(items));
+                    // an ingested table that leaves L0 by a (trivial) move keeps its global seqno
+                    // in the version file only: move it, then often reopen
+                    if rng.chance(1, 3) {
+                        // (Leveled's own trivial moves; MoveDown would build multi-run levels,
+                        // which Leveled's debug assertions reject by design)
+                        ops.push(Op::Leveled {
+                            l0: *rng.pick(&[1u8, 2, 4]),
+                            target: *rng.pick(&[200u64, 4096, 1 << 20]),
+                            w: Wm::Zero,
+                        });
+                        if rng.chance(1, 2) {
+                            ops.push(Op::Reopen);
+                            st.live_snaps.clear();
+                        }
+                    }
                 }
                 "blob" if rng.chance(1, 2) => {
                     let mut ks: Vec<Vec<u8>> = st.keys.clone();
